@@ -395,6 +395,11 @@ pub struct Known {
     /// round trip UTC->TAI->UTC returns u - step for T_i - offset(i-1) <= u < T_i; (b) TAI->UTC
     /// steps back by `step` at TAI count T_i.
     pub kf2: bool,
+    /// KF3 (what is left of KF2 after its repair): a UTC count cannot represent an inserted leap
+    /// second, and TAI->UTC repeats the second before it: it steps back by the size of the step
+    /// at the start of each inserted second (TAI count T_i + offset(i-1)); for the 1972 entry,
+    /// which inserts 10 s at once, at TAI count T_0.
+    pub kf3: bool,
 }
 
 #[derive(Clone, Debug, Default)]
@@ -402,6 +407,7 @@ pub struct KnownHits {
     pub kf1: u64,
     pub kf2_roundtrip: u64,
     pub kf2_backstep: u64,
+    pub kf3_backstep: u64,
 }
 
 #[derive(Clone, Debug, Default)]
@@ -656,12 +662,31 @@ pub fn conv_scan_tai(
                     }
                     before = dat as i128 * NS_PER_S;
                 }
-                if kf2 && known.kf2 {
+                // KF3: the step back at the start of the inserted second(s).
+                let mut before = 0i128;
+                let mut kf3 = false;
+                for &(ts, dat) in shipped {
+                    let step = dat as i128 * NS_PER_S - before;
+                    let p = ts as i128 * NS_PER_S + before;
+                    if step > 0 && pa < p && a >= p && drop <= step {
+                        kf3 = true;
+                    }
+                    before = dat as i128 * NS_PER_S;
+                }
+                if kf3 && known.kf3 {
+                    st.hits.kf3_backstep += 1;
+                } else if kf2 && known.kf2 {
                     st.hits.kf2_backstep += 1;
                 } else {
                     return Err(format!(
                         "TAI->UTC goes backwards: TAI {pa} ns -> UTC {pu} ns but later TAI {a} ns -> UTC {u_ns} ns{}",
-                        if kf2 { " [matches KF2, which known_findings.txt does not list]" } else { "" }
+                        if kf3 {
+                            " [matches KF3, which known_findings.txt does not list]"
+                        } else if kf2 {
+                            " [matches KF2, which known_findings.txt does not list]"
+                        } else {
+                            ""
+                        }
                     ));
                 }
             }
